@@ -2070,8 +2070,11 @@ public:
 
         for (size16_t i = 0; i < rule_count; ++i)
         {
+            size16_t rule_info_idx = 0;
+            while (gi.rule_infos[rule_info_idx].r_idx != i)
+                ++rule_info_idx;
             s << i << "    ";
-            write_rule_diag_str(s, i);
+            write_rule_diag_str(s, rule_info_idx);
             s << "\n";
         }
         s << "\n";
